@@ -22,6 +22,19 @@ inline Sym ERRSYM() { return Sym{true, tpl::T36_TERMS + 1}; }
 inline Rule mk(int lhs, std::vector<Sym> rhs) { Rule r; r.lhs = lhs; r.rhs = std::move(rhs); return r; }
 
 // assign template slots; rules that find no free slot are dropped. Source order becomes slot order.
+// slot pattern codes: 0 any ordinary symbol, 1 error symbol, 2 terminal only, 3 nonterminal only
+inline bool slot_matches(const std::vector<int>& pat, const Rule& r, int errsym)
+{
+    if (pat.size() != r.rhs.size()) return false;
+    for (size_t i = 0; i < pat.size(); ++i)
+    {
+        bool is_err = r.rhs[i].term && r.rhs[i].idx == errsym;
+        switch (pat[i]) { case 0: if (is_err) return false; break; case 1: if (!is_err) return false; break; case 2: if (is_err || !r.rhs[i].term) return false; break; default: if (r.rhs[i].term) return false; break; }
+    }
+    return true;
+}
+inline char& prefer_kind() { static char k = 0; return k; }    // engines may bias slot choice towards a functor kind (C13: 'c')
+
 inline Grammar assign_slots(const Abstract& a, Choice& ch, bool randomise, const std::vector<tpl::SlotInfo>& slots)
 {
     Grammar g; g.nT = tpl::T36_TERMS; g.nN = tpl::T36_NT; g.root = a.root; g.tprec = a.tprec; g.tassoc = a.tassoc;
@@ -30,10 +43,14 @@ inline Grammar assign_slots(const Abstract& a, Choice& ch, bool randomise, const
     for (auto r : a.rules)
     {
         if (r.rhs.size() > max_ar || r.lhs < 0 || r.lhs >= g.nN) continue;
-        std::vector<int> pat; for (auto& s : r.rhs) pat.push_back(s.term && s.idx == g.err() ? 1 : 0);
         std::vector<int> cands;
-        for (size_t s = 0; s < slots.size(); ++s) if (!used[s] && slots[s].pattern == pat) cands.push_back(int(s));
+        for (size_t s = 0; s < slots.size(); ++s) if (!used[s] && slot_matches(slots[s].pattern, r, g.err())) cands.push_back(int(s));
         if (cands.empty()) continue;
+        if (prefer_kind())
+        {
+            std::vector<int> pref; for (int s : cands) if (slots[size_t(s)].kind == prefer_kind()) pref.push_back(s);
+            if (!pref.empty() && ch.chance(3, 4)) cands = pref;
+        }
         int pick = randomise ? cands[ch.below(uint32_t(cands.size()))] : cands[0];
         used[size_t(pick)] = true; r.slot = pick; r.passthrough = slots[size_t(pick)].kind == 'd';
         g.rules.push_back(r);
